@@ -2195,4 +2195,4 @@ mod tests {
 
 #[cfg(kani)]
 #[path = "/verif/kani/value_mod.rs"]
-mod verif_kani;
+pub(crate) mod verif_kani;
